@@ -1,0 +1,20 @@
+//go:build verif
+
+// Contracts for the deductive verification of the end-to-end checksum codec (comment-only; build tag verif).
+
+package main
+
+//@ option seq=bytes
+//@ autotag nopanic main.go C19
+//@ autotag reach main.go C19
+
+//@ typeinv myCodec := this.protoCodec != nil
+
+//@ func (c *myCodec) Marshal
+//@   ensures [C19.passthrough] $innerErr != nil ==> $ret1 == $innerErr && $ret0 == $innerBytes
+//@   ensures [C19.frame] $innerErr == nil ==> $ret1 == nil && seq($ret0) == cat(cat(varint(16381), le32(crc32c(seq($innerBytes)))), seq($innerBytes))
+//@   deadreturn 2 3
+//@   ensures [C19.once] $innerCalls == old($innerCalls) + 1
+//@ lemma [C19.tag-bytes] varint(16381) == cat(bytes1(253), bytes1(127))
+//@ lemma [C19.six-bytes] forall c int :: slen(cat(varint(16381), le32(c))) == 6
+//@ func (c *myCodec) Unmarshal
